@@ -167,3 +167,75 @@ def failover(args, seed, d):
         cl.shutdown()
 
 
+
+
+def pinned_lockstep(rounds=40, n=3):
+    """One client per node of a fresh n-node cluster, all nodes brought to the same number of accepted proposals (hook
+    trace), then `rounds` rounds in lock step: client i sends INCRBY own<i> 10^i through node i, all at the same moment.
+    Every client must get the reply to ITS command (the running total of its own key) and every replica must end with the
+    same totals. Identifiers that are only unique per node (counters, timestamps) collide here and deliver a reply to the
+    wrong client or wedge the apply loop. Returns (problems, stats)."""
+    cl = cluster.Cluster(n, trace=True).start_all()
+    problems, stats = [], {"rounds": 0, "nodes": n}
+    try:
+        if cl.wait_serving(timeout=60) is None:
+            return None, dict(stats, inconclusive="cluster did not start serving")
+        counts = {nd.id: sum(1 for e in cl.events(nd) if e.get("ev") == "propose") for nd in cl.nodes[:n]}
+        top = max(counts.values())
+        conns = []
+        for nd in cl.nodes[:n]:
+            c = nd.client(timeout=6.0)
+            for _ in range(top - counts[nd.id]):
+                c.cmd("PING")
+            conns.append(c)
+        bar = threading.Barrier(n)
+        lock = threading.Lock()
+
+        def client(i):
+            c = conns[i]
+            step = 10 ** i
+            total = 0
+            for r in range(rounds):
+                try:
+                    bar.wait(timeout=30)
+                except threading.BrokenBarrierError:
+                    return
+                total += step
+                try:
+                    rep = c.cmd("INCRBY", "own%d" % i, str(step), timeout=6.0)
+                except Exception as e:
+                    with lock:
+                        problems.append({"kind": "no-reply", "node": cl.nodes[i].id, "round": r, "detail": "INCRBY own%d %d through node %d: no reply within 6 s (%s)" % (i, step, cl.nodes[i].id, type(e).__name__)})
+                    bar.abort()
+                    return
+                if rep != (":", total):
+                    with lock:
+                        problems.append({"kind": "foreign-reply", "node": cl.nodes[i].id, "round": r,
+                                         "detail": "INCRBY own%d %d through node %d answered %r; the reply to this command is :%d" % (i, step, cl.nodes[i].id, rep, total)})
+                    bar.abort()
+                    return
+                if i == 0:
+                    stats["rounds"] = r + 1
+
+        ts = [threading.Thread(target=client, args=(i,)) for i in range(n)]
+        for t in ts:
+            t.start()
+        for t in ts:
+            t.join(timeout=120)
+        if not problems:
+            for nd in cl.nodes[:n]:
+                try:
+                    c = nd.client(timeout=6.0)
+                    for i in range(n):
+                        rep = c.cmd("GET", "own%d" % i, timeout=6.0)
+                        if rep[1] != str(rounds * 10 ** i).encode():
+                            problems.append({"kind": "replica-state", "node": nd.id, "round": rounds, "detail": "GET own%d through node %d = %r, expected %d" % (i, nd.id, rep[1], rounds * 10 ** i)})
+                    c.close()
+                except Exception as e:
+                    problems.append({"kind": "no-reply", "node": nd.id, "round": rounds, "detail": "read-back through node %d got no reply" % nd.id})
+        for nd in cl.nodes[:n]:
+            if not nd.alive():
+                problems.append({"kind": "node-died", "node": nd.id, "round": -1, "detail": cl.tail(nd, 800)})
+        return problems, stats
+    finally:
+        cl.shutdown()
